@@ -151,6 +151,11 @@ def operation_shape(sched):
     return out
 
 
+import sys as _sys
+_REPR_NS = {"Forward": Forward, "Reverse": Reverse, "Copy": Copy, "Move": Move, "EndForward": EndForward,
+            "EndReverse": EndReverse, "StorageType": StorageType, "sys": _sys}
+
+
 def drive(spec, passes=1, keep_stream=True, max_actions=2_000_000, observe=True, interfere=None):
     """Run the real class, feeding every action to the executor.
 
@@ -228,6 +233,12 @@ def drive(spec, passes=1, keep_stream=True, max_actions=2_000_000, observe=True,
                              "%s: %s" % (type(exc).__name__, exc))
                     ex.finalized()
                 if observe:
+                    try:       # C18: every emitted action is a value object whose repr evaluates back to it
+                        back = eval(repr(a), _REPR_NS)
+                        if not (back == a and a == back and type(back) is type(a)):
+                            ex.v("C18", "repr_evaluates_back", "%r evaluates to %r" % (a, back))
+                    except Exception as exc:
+                        ex.v("C18", "repr_evaluates_back", "%r: %s: %s" % (a, type(exc).__name__, exc))
                     ex.check_counters(sched, a)
                     try:
                         if sched.is_running is not True:
